@@ -89,7 +89,9 @@ def make_tree(case):
         tree, _nodes = build(case["spec"], flavour=Flavour("str"), tree=Tree("T", factory=ShoutingNode))
         return tree, hash
     fl = Flavour(fln)
-    if fln == "obj_cb":
+    if fln == "dict_cb":
+        t = (TypedTree if typed else Tree)("T", calc_data_id=lambda tree, data: data["guid"] if isinstance(data, dict) else hash(data))
+    elif fln == "obj_cb":
         t = (TypedTree if typed else Tree)("T", calc_data_id=_guid_cb)
     elif fln == "obj_sub":
         t = (GuidTypedTree if typed else GuidTree)("T")
@@ -97,6 +99,8 @@ def make_tree(case):
         t = (TypedTree if typed else Tree)("T")
     tree, _nodes = build(case["spec"], flavour=fl, typed=typed, tree=t)
     idf = (lambda x: x.guid if isinstance(x, Person) else hash(x)) if fln in ("obj_cb", "obj_sub") else hash
+    if fln == "dict_cb":
+        idf = lambda x: x["guid"] if isinstance(x, dict) else hash(x)  # noqa: E731
     return tree, idf
 
 
@@ -392,7 +396,7 @@ def flavour_cases(draw, tier):
     spec = draw(gen.forest_specs(max_nodes=10, max_depth=4, max_width=4, min_nodes=1, alphabet=["a", "b", "c", "a1", "ab"],
                                  opts=gen.node_opts(explicit_ids=True, kinds=typed)))
     gen.fix_sibling_ids(spec, auto=lambda label: ("x", label))
-    flavour = draw(st.sampled_from(["obj_cb", "obj_sub", "dc", "str", "factory"]))
+    flavour = draw(st.sampled_from(["obj_cb", "obj_sub", "dc", "str", "factory", "dict_cb"]))
     return {"spec": spec, "typed": typed and flavour != "factory", "flavour": flavour}
 
 
